@@ -183,6 +183,48 @@ for nm, ent, fn, can in (("c01_sbl_isPathValid", "h_sbl_isPathValid", "ompl::geo
     UNITS.append(dict(name=nm, template="C01/sbl.c", mode="plain", entry=ent, flags=["--bounds-check", "--pointer-check", "--signed-overflow-check", "--conversion-check"], unwind=10, level="bounded", bound="branches of <= 3 motions per tree",
                       backend="minisat", timeout=900, functions=[fn], sources=SBL_SRC, canaries=can))
 
+# ---------------------------------------------------------------- RRTConnect::growTree
+def _stub_intermediate_block(text):
+    """'if (addIntermediateStates_) { ... }' -> the block body becomes a stub call (this unit covers the default, addIntermediateStates_ off)."""
+    from vf import extract as X
+    i = text.find("if (addIntermediateStates_)")
+    if i < 0:
+        return text
+    j = text.index("{", i)
+    e = X._match(text, j, "{", "}")
+    return text[:j] + "{ INTERMEDIATE_STATES_BRANCH(); }" + text[e + 1:]
+RCF = "src/ompl/geometric/planners/rrt/src/RRTConnect.cpp"
+RC_RULES = [
+    (_stub_intermediate_block,),
+    (r"Motion \*nmotion = tree->nearest\(rmotion\);", "Motion nmotion = NEAREST();", 0), (r"base::State \*dstate = rmotion->state;", "SRef dstate = M_state[rmotion];", 0),
+    (r"si_->distance\(nmotion->state, rmotion->state\)", "DIST()", 0), (r"tgi\.xstate", "XSTATE", 0), (r"tgi\.start", "TGI_START", 0), (r"tgi\.xmotion", "TGI_XMOTION", 0),
+    (r"si_->getStateSpace\(\)->interpolate\(nmotion->state, rmotion->state, maxDistance_ / d, XSTATE\);", "INTERPOLATE_INTO(XSTATE, maxDistance_ / d);", 0),
+    (r"si_->equalStates\(", "EQUAL_STATES(", 0), (r"si_->checkMotion\(", "CM(", 0), (r"si_->isValid\(", "ISVALID(", 0),
+    (r"auto \*motion = new Motion\(si_\);", "Motion motion = NEW_MOTION();", 0), (r"si_->copyState\(", "COPY_STATE(", 0), (r"tree->add\(motion\);", "TREE_ADD(motion);", 0),
+    (r"(\w+)->parent\b", r"PARENT[\1]", 0), (r"(\w+)->state\b", r"M_state[\1]", 0), (r"(\w+)->root\b", r"ROOT[\1]", 0),
+]
+UNITS.append(dict(name="c01_rrtconnect_growTree", template="C01/rrtconnect.c", mode="plain", entry="h_growTree", flags=["--bounds-check", "--pointer-check", "--signed-overflow-check", "--conversion-check"], level="proof", backend="minisat", timeout=300,
+                  functions=["ompl::geometric::RRTConnect::growTree (addIntermediateStates_ off)"],
+                  sources=[dict(name="growTree", file=RCF, sig=r"ompl::geometric::RRTConnect::GrowState ompl::geometric::RRTConnect::growTree\(TreeData &tree, TreeGrowingInfo &tgi,\s*Motion \*rmotion\)", rules=RC_RULES, loops={})],
+                  canaries=[dict(name="goal_tree_checked_in_start_direction", where="body:growTree", rx=r"ISVALID\(dstate\) && CM\(dstate, M_state\[nmotion\]\)", repl="ISVALID(dstate) && CM(M_state[nmotion], dstate)"),
+                            dict(name="goal_tree_state_not_validated", where="body:growTree", rx=r"ISVALID\(dstate\) && ", repl=""),
+                            dict(name="adds_when_trapped", where="body:growTree", rx=r"if \(!validMotion\)\s*return TRAPPED;", repl="")]))
+
+# ---------------------------------------------------------------- PRM::addMilestone (bounded)
+PM_RULES = [
+    (r"std::lock_guard<std::mutex> _\(graphMutex_\);", "", 0), (r"Vertex m = boost::add_vertex\(g_\);", "Vertex m = ADD_VERTEX();", 0), (r"stateProperty_\[(\w+)\]", r"SP[\1]", 0),
+    (r"totalConnectionAttemptsProperty_\[(\w+)\]", r"TOTAL[\1]", 0), (r"successfulConnectionAttemptsProperty_\[(\w+)\]", r"SUCC[\1]", 0), (r"disjointSets_\.make_set\(m\);", "MAKE_SET(m);", 0),
+    (r"const std::vector<Vertex> &neighbors = connectionStrategy_\(m\);", "", 0), (r"foreach \(Vertex n, neighbors\)", "for (unsigned k_ = 0; k_ < n_nb; ++k_) FOREACH_BODY", 0),
+    (r"connectionFilter_\(n, m\)", "FILTER(n, m)", 0), (r"si_->checkMotion\(", "CM(", 0), (r"const base::Cost weight = opt_->motionCost\(SP\[n\], SP\[m\]\);", "const double weight = MOTION_COST(SP[n], SP[m]);", 0),
+    (r"const Graph::edge_property_type properties\(weight\);", "", 0), (r"boost::add_edge\(n, m, properties, g_\);", "ADD_EDGE(n, m, weight);", 0), (r"uniteComponents\(n, m\);", "UNITE(n, m);", 0), (r"nn_->add\(m\);", "NN_ADD(m);", 0),
+    (r"FOREACH_BODY\s*if \(FILTER\(n, m\)\)", "{ Vertex n = NB[k_]; if (FILTER(n, m))", 0), (r"(UNITE\(n, m\);\s*\}\s*\})", r"\1 }", 0),
+]
+UNITS.append(dict(name="c01_prm_addMilestone", template="C01/prm_milestone.c", mode="plain", entry="h_addMilestone", flags=["--bounds-check", "--pointer-check", "--unsigned-overflow-check", "--conversion-check"], unwind=5, level="bounded", bound="<= 3 proposed neighbours",
+                  backend="minisat", timeout=300, functions=["ompl::geometric::PRM::addMilestone"],
+                  sources=[dict(name="addMilestone", file=PRMF, sig=r"ompl::geometric::PRM::Vertex ompl::geometric::PRM::addMilestone\(base::State \*state\)", rules=PM_RULES, loops={"allow_uncontracted": True})],
+                  canaries=[dict(name="edge_without_motion_check", where="body:addMilestone", rx=r"if \(CM\(SP\[n\], SP\[m\]\)\)", repl="if (CM(SP[n], SP[m]) || 1)"),
+                            dict(name="components_not_united", where="body:addMilestone", rx=r"UNITE\(n, m\);", repl="")]))
+
 ASSUMPTIONS = ["start states are addressed by index; bounds/validity of the start state at the ghost index are arbitrary fixed values", "exceptions (missing problem definition) are outside the modelled paths"]
 TRUSTED = ["extraction rewrite tables of units/C01.py, units/C17.py", "stubs in units/C01/inputs.c, units/C17/pathgeom.c", "CBMC 6.11 DFCC + minisat"]
 NOT_COVERED = ["THE SOLVE LOOPS OF THE ~45 GEOMETRIC AND MULTILEVEL PLANNERS: that every tree/roadmap edge is admitted only after checkMotion, that the reported path starts at a start state and ends in the goal region, status/flag consistency per planner, non-solution statuses adding no path (planner bodies are not under contract)",
